@@ -175,9 +175,21 @@ ALL_TEMPLATES = ["codeA", "codeB", "codeA0", "codeErr", "codeDisp", "codeRes2", 
                  "codeJlol", "codeJloo", "codeJsc", "codeS", "md", "mdAtt", "raw"]
 
 
-def shards(tier, props, known, files=None):
+def shards(tier, props, known, files=None, lite=False):
+    """lite: the reduced set used when another property rides on this family
+    in the quick tier (C11, C13)."""
     kw = dict(props=tuple(props), known=tuple(known))
     out = []
+    if lite and tier == "quick":
+        for t in ALL_TEMPLATES:
+            out.append(("make_related", "rel1-%s" % t,
+                        dict(templates=(t,), actions="ACTIONS_FULL", inserts=1, nbacts=("keep", "md_edit"),
+                             files=0, **kw)))
+        out.append(("make_related", "rel2-codeA-mdAtt",
+                    dict(templates=("codeA", "mdAtt"), actions="ACTIONS_PAIR", inserts=0, nbacts=("keep",),
+                         files=0, **kw)))
+        out.append(("make_unrelated", "unrel-0", dict(ta=("codeA", "md"), tb=("codeB", "raw"), files=0, **kw)))
+        return out
     if files is None:
         files = 5 if tier == "quick" else 1
     # every single template with every applicable action and one insertion
